@@ -395,9 +395,9 @@ class AsyncClient(base_client.BaseClient):
             self._connect_event.set()
 
     async def _handle_disconnect(self, namespace):
-        if not self.connected:
-            return
         namespace = namespace or '/'
+        if not self.connected and namespace not in self.namespaces:
+            return
         try:
             await self._trigger_event('disconnect', namespace,
                                       self.reason.SERVER_DISCONNECT)
